@@ -5,6 +5,7 @@ rustc_private driver (or plain cargo check) there, evaluates rules over the fact
 extracted from the current source, writes /verif/evidence/<ID>.json and prints VIOLATION /
 KNOWN-FINDING lines.  Nothing here executes the library.
 """
+import fcntl
 import hashlib
 import json
 import os
@@ -134,7 +135,38 @@ def run_driver(scratch, mode, flags="dbg", features=None, no_default=False, env_
     out = os.path.join(scratch.dir, "verif-out-%s-%s.json" % (mode, tag))
     if os.path.exists(out):
         os.remove(out)
-    tdir = os.path.join(CACHE, "%s-%s" % (target, flags))
+    # cargo locks its build directory: concurrent runs each take a free slot (own target dir)
+    slot_fh, slot = acquire_slot("%s-%s" % (target, flags))
+    tdir = os.path.join(CACHE, "%s-%s" % (target, flags) + ("" if slot == 0 else "-slot%d" % slot))
+    try:
+        return _run_driver(scratch, mode, flags, features, no_default, env_extra, tag, timeout, tdir, out)
+    finally:
+        try:
+            fcntl.flock(slot_fh, fcntl.LOCK_UN)
+            slot_fh.close()
+        except OSError:
+            pass
+
+
+def acquire_slot(name, n=8):
+    os.makedirs(CACHE, exist_ok=True)
+    fhs = []
+    for i in range(n):
+        fh = open(os.path.join(CACHE, "slot-%s-%d.lock" % (name, i)), "w")
+        try:
+            fcntl.flock(fh, fcntl.LOCK_EX | fcntl.LOCK_NB)
+            for o in fhs:
+                o.close()
+            return fh, i
+        except OSError:
+            fhs.append(fh)
+    for o in fhs[1:]:
+        o.close()
+    fcntl.flock(fhs[0], fcntl.LOCK_EX)
+    return fhs[0], 0
+
+
+def _run_driver(scratch, mode, flags, features, no_default, env_extra, tag, timeout, tdir, out):
     env = dict(os.environ)
     env.update({
         "LD_LIBRARY_PATH": sysroot_lib() + ":" + env.get("LD_LIBRARY_PATH", ""),
